@@ -24,7 +24,7 @@ fi
 rm -f /tmp/apply.$$.err
 demo_mut=$( cd "$WT/$PKGDIR" && go test -vet=off -count=1 -run "^($TESTS)\$" . >/dev/null 2>&1 && echo pass || echo fail )
 rm -f "$WT/$PKGDIR/zz_seed_demo_test.go"
-git -C "$WT" diff > "$WT/.rebased.diff"
+git -C "$WT" diff HEAD > "$WT/.rebased.diff"
 suite=$( cd "$WT" && go test -vet=off -count=1 ./... >/tmp/suite.$$.log 2>&1 && echo pass || echo fail ); 
 [ "$suite" = fail ] && grep -E "^(--- FAIL|FAIL)" /tmp/suite.$$.log | head -5
 rm -f /tmp/suite.$$.log
